@@ -21,6 +21,8 @@
      FRest min       parse_octets(remaining()): the opaque remainder; parse
                      answers ShortInput when fewer than min octets remain
                      (Zonemd: 12)
+     FChecked k      the remainder, accepted only if it passes a structural
+                     check (type bitmap, SVCB parameters, EDNS option shapes)
 
    Parsing happens where the Rust code does it: in a sub-parser of the whole
    message (octets m) that starts at pos and may read up to lim (= pos +
@@ -39,6 +41,15 @@ Definition P_LONG : N := 20.       (* expect("long ...") in rdlen / compose *)
 
 Inductive cs_check := CsAny | CsAlnum.
 
+(* a remainder that must pass a structural check (the value is its octets):
+   KBitmap     RtypeBitmap::from_octets (window blocks of 1..32 octets)
+   KSvcParams  SvcParams::check_slice (key, length, data; keys strictly increasing)
+   KEven       Understood / KeyTag: an even number of octets
+   KExpire     Expire::parse: nothing or a u32
+   KKeepalive  TcpKeepalive::parse: nothing or a u16
+   KCookie     Cookie::parse: 8 octets client cookie, optionally 8..32 octets server cookie *)
+Inductive chk_kind := KBitmap | KSvcParams | KEven | KExpire | KKeepalive | KCookie.
+
 Inductive field :=
 | FNum (w : nat)
 | FFix (k : nat)
@@ -46,7 +57,8 @@ Inductive field :=
 | FCharStr (chk : cs_check)
 | FCharStrs
 | FLen16
-| FRest (min : nat).
+| FRest (min : nat)
+| FChecked (k : chk_kind).
 
 Definition U8 := FNum 1.
 Definition U16 := FNum 2.
@@ -62,6 +74,11 @@ Definition CaaTagStr := FCharStr CsAlnum.
 Definition CharStrs := FCharStrs.
 Definition Len16Bytes := FLen16.
 Definition Rest := FRest 0.
+Definition Bitmap := FChecked KBitmap.
+Definition SvcParamsF := FChecked KSvcParams.
+
+(* a check on the whole parsed value (cross-field conditions) *)
+Inductive post_kind := PNone | PSubnet.
 
 Inductive fval :=
 | VNum (n : N)
@@ -78,7 +95,8 @@ Definition value := list fval.
 Record schema := mkS {
   s_fields : list field;
   s_long : option N;
-  s_ctor_total : bool
+  s_ctor_total : bool;
+  s_post : post_kind
 }.
 
 (* ---- numbers *)
@@ -99,6 +117,60 @@ Definition cs_ok (c : cs_check) (b : bytes) : bool :=
 
 Definition charstr_wire (b : bytes) : bytes := len b :: b.
 
+(* ---- structural checks; None = passes, Some e = ParseError class *)
+(* RtypeBitmap::from_octets *)
+Fixpoint bitmap_check (fuel : nat) (d : bytes) : option N :=
+  match fuel with
+  | O => Some E_FORM
+  | S fuel' =>
+      match d with
+      | [] => None
+      | [_] => Some E_SHORT
+      | _ :: l :: rest =>
+          if l =? 0 then Some E_FORM
+          else if 32 <? l then Some E_FORM
+          else if (length rest <? N.to_nat l)%nat then Some E_SHORT
+          else bitmap_check fuel' (skipn (N.to_nat l) rest)
+      end
+  end.
+
+(* SvcParams::check_slice; last = the previous key + 1 (0 = none yet) *)
+Fixpoint svcparams_check (fuel : nat) (d : bytes) (last : N) : option N :=
+  match fuel with
+  | O => Some E_FORM
+  | S fuel' =>
+      match d with
+      | [] => None
+      | k1 :: k2 :: rest =>
+          let key := k1 * 256 + k2 in
+          if key + 1 <=? last then Some E_FORM
+          else match rest with
+               | l1 :: l2 :: rest' =>
+                   let l := N.to_nat (l1 * 256 + l2) in
+                   if (length rest' <? l)%nat then Some E_SHORT
+                   else svcparams_check fuel' (skipn l rest') (key + 1)
+               | _ => Some E_SHORT
+               end
+      | _ => Some E_SHORT
+      end
+  end.
+
+Definition rest_check (k : chk_kind) (b : bytes) : option N :=
+  match k with
+  | KBitmap => bitmap_check (S (length b)) b
+  | KSvcParams => svcparams_check (S (length b)) b 0
+  | KEven => if Nat.even (length b) then None else Some E_FORM
+  | KExpire => match length b with 0%nat | 4%nat => None | 1%nat | 2%nat | 3%nat => Some E_SHORT | _ => Some E_FORM end
+  | KKeepalive => match length b with 0%nat | 2%nat => None | 1%nat => Some E_SHORT | _ => Some E_FORM end
+  | KCookie =>
+      let n := len b in
+      if n <? 8 then Some E_SHORT
+      else if n =? 8 then None
+      else if n <? 16 then Some E_FORM
+      else if 40 <? n then Some E_FORM
+      else None
+  end.
+
 (* ---- compose *)
 Definition compose_field (canon : bool) (f : field) (x : fval) : bytes :=
   match f, x with
@@ -109,6 +181,7 @@ Definition compose_field (canon : bool) (f : field) (x : fval) : bytes :=
   | FCharStrs, VStrs l => concat (map charstr_wire l)
   | FLen16, VBytes b => be 2 (len b) ++ b
   | FRest _, VBytes b => b
+  | FChecked _, VBytes b => b
   | _, _ => []
   end.
 
@@ -144,6 +217,7 @@ Definition field_len (f : field) (x : fval) : N :=
   | FCharStrs, VStrs l => fold_right (fun b a => len b + 1 + a) 0 l
   | FLen16, VBytes b => 2 + len b
   | FRest _, VBytes b => len b
+  | FChecked _, VBytes b => len b
   | _, _ => 0
   end.
 Fixpoint fields_len (s : list field) (v : value) : N :=
@@ -213,6 +287,12 @@ Definition parse_field (dec : decoder) (f : field) (m : bytes) (pos lim : N)
   | FRest min =>
       if lim - pos <? N.of_nat min then Err E_SHORT
       else do r <- rd m pos lim (lim - pos); Ok (VBytes (fst r), snd r)
+  | FChecked k =>
+      do r <- rd m pos lim (lim - pos);
+      match rest_check k (fst r) with
+      | None => Ok (VBytes (fst r), snd r)
+      | Some e => Err e
+      end
   end.
 
 Fixpoint parse_fields (dec : decoder) (s : list field) (m : bytes) (pos lim : N)
@@ -238,10 +318,31 @@ Definition parse_type (dec : decoder) (s : schema) (m : bytes) (pos lim : N)
   | None => parse_fields dec (s_fields s) m pos lim
   end.
 
+(* ClientSubnet::parse after the four fixed octets: family 1 / 2, exactly
+   ceil(source prefix / 8) address octets (at most 4 / 16), no bit set beyond
+   the prefix.  All failures are form errors. *)
+Definition subnet_ok (fam src : N) (addr : bytes) : bool :=
+  let pb := (src + 7) / 8 in
+  ((fam =? 1) && (pb <=? 4) || (fam =? 2) && (pb <=? 16))
+  && (len addr =? pb)
+  && ((src mod 8 =? 0) ||
+      match last addr 0 with b => b mod (2 ^ (8 - src mod 8)) =? 0 end).
+
+Definition post_ok (p : post_kind) (v : value) : bool :=
+  match p with
+  | PNone => true
+  | PSubnet =>
+      match v with
+      | [VNum fam; VNum src; VNum _; VBytes addr] => subnet_ok fam src addr
+      | _ => false
+      end
+  end.
+
 Definition parse_rdata (dec : decoder) (s : schema) (m : bytes) (pos lim : N)
   : outcome value :=
   do r <- parse_type dec s m pos lim;
-  if snd r =? lim then Ok (fst r) else Err E_FORM.
+  if snd r =? lim then (if post_ok (s_post s) (fst r) then Ok (fst r) else Err E_FORM)
+  else Err E_FORM.
 
 (* ---- name decoders *)
 (* the message reader of base/name/parsed.rs (compression pointers followed) *)
@@ -259,7 +360,7 @@ Definition flat_dec : decoder := fun m pos lim =>
 
 (* ---- well-formedness *)
 Definition delimited (f : field) : bool :=
-  match f with FCharStrs | FRest _ => false | _ => true end.
+  match f with FCharStrs | FRest _ | FChecked _ => false | _ => true end.
 Fixpoint wf_fields (l : list field) : bool :=
   match l with
   | [] => true
@@ -283,6 +384,7 @@ Definition wf_fval (ctor : bool) (f : field) (x : fval) : bool :=
   | FCharStrs, VStrs l => forallb strb l && (negb ctor || negb (length l =? 0)%nat)
   | FLen16, VBytes b => (len b <=? 65535) && bytesb b
   | FRest min, VBytes b => (ctor || (min <=? length b)%nat) && bytesb b
+  | FChecked k, VBytes b => bytesb b && match rest_check k b with None => true | Some _ => false end
   | _, _ => false
   end.
 Fixpoint wf_fvals (ctor : bool) (s : list field) (v : value) : bool :=
@@ -293,11 +395,12 @@ Fixpoint wf_fvals (ctor : bool) (s : list field) (v : value) : bool :=
   end.
 
 Definition wf_value (s : schema) (v : value) : bool :=
-  wf_fvals false (s_fields s) v && (total_len s v <=? 65535).
+  wf_fvals false (s_fields s) v && (total_len s v <=? 65535) && post_ok (s_post s) v.
 
 (* the constructor accepts *)
 Definition ctor_accepts (s : schema) (v : value) : bool :=
-  wf_fvals true (s_fields s) v && (negb (s_ctor_total s) || (total_len s v <=? 65535)).
+  wf_fvals true (s_fields s) v && (negb (s_ctor_total s) || (total_len s v <=? 65535))
+  && post_ok (s_post s) v.
 
 (* The two ways in which an accepted value is not well-formed: *)
 Definition overlong (s : schema) (v : value) : bool := 65535 <? total_len s v.
